@@ -556,6 +556,15 @@ func newWorldA(p *Plan, out *Outcome, preStart func(w *worldA)) *worldA {
 		StressRelief: w.stress, SamplerFactory: w.sf, Peers: w.gpeers,
 		Sharder: &sharder.MockSharder{Self: &sharder.TestShard{Addr: "self"}},
 	}
+	collect.SimOutgoingQueueCap = func(i *collect.InMemCollector) int {
+		if i == w.coll {
+			if c := int(w.p.N["out_queue_cap"]); c > 0 {
+				w.out.Probe("outgoing_queue_shrunk")
+				return c
+			}
+		}
+		return 0
+	}
 	collect.SimHeapAlloc = func(i *collect.InMemCollector, real uint64) uint64 {
 		if i != w.coll {
 			return 0
@@ -1027,6 +1036,16 @@ func (w *worldA) midReloadDecision(op Op) {
 	w.out.Probe("decision_while_reload_half_done")
 }
 
+// blockedOnSend reports whether worker wid is stuck handing a trace to a full
+// outgoing queue (only possible in plans that shrink that queue).
+func (w *worldA) blockedOnSend(wid int) bool {
+	if !w.p.On("out_queue_cap") {
+		return false
+	}
+	g := w.tr.WorkerGoid(int64(wid))
+	return g != 0 && strings.HasPrefix(goroutineState(g), "chan send")
+}
+
 // awaitGoroutine waits until goroutine g has come to rest and says where:
 // "gate" (it closed parked and waits at a harness gate), "lock" (it waits for a
 // mutex), "idle" (blocked anywhere else: back in its loop) or "gone". What it
@@ -1253,6 +1272,14 @@ func (w *worldA) hooks() {
 			w.tr.Release(fmt.Sprintf("makeDecision/%d", i))
 			w.drv.Settle()
 		}
+		for i := 0; i < w.nWorkers; i++ {
+			// a worker that got stuck handing a decided trace to a full outgoing
+			// queue finishes its share when the queue drains, in later steps
+			if w.blockedOnSend(i) {
+				ej.stalled[i] = true
+				w.out.Probe("ejection_waits_for_full_outgoing_queue")
+			}
+		}
 		w.afterEj[ej.step] = w.snapshotBuffers()
 	}
 	// ticks are withheld from a worker that is parked or has a backlog, so that
@@ -1260,6 +1287,9 @@ func (w *worldA) hooks() {
 	// otherwise pick at random, which cannot be seeded)
 	w.drv.TickGate = func(tk *SimTicker) bool {
 		if wid, ok := workerOfTickKey(tk.Key); ok {
+			if w.blockedOnSend(wid) {
+				return false // it would wake with this tick and whatever arrives meanwhile both ready
+			}
 			if w.tr.Parked(fmt.Sprintf("collect_worker/%d", wid)) || len(w.qIn[wid])+len(w.qPeer[wid]) > 0 {
 				// except, in plans that stall workers in a gap of the traffic: one tick
 				// is let through to a stalled worker with nothing else to do (it waits in
@@ -1336,6 +1366,7 @@ func runWorldAWith(t *testing.T, p *Plan, o aOpts) *Outcome {
 		w.sf.Stop()
 		w.hl.Stop()
 		collect.SimHeapAlloc = nil
+		collect.SimOutgoingQueueCap = nil
 	})
 	if pt != "" && out.Harness == "" {
 		out.Harness = "panic/deadlock in bubble: " + pt
